@@ -130,7 +130,9 @@ PROPS["C10"] = dict(
     bounds="chunk-kind sequences of length <= 6 (11 in the quick tier, 20 in the thorough tier) over layer, cel, slice, tags(2), "
            "legacy palette 0x0004/0x0011, new palette, ignorable (cel-extra/mask/path), external files and user data; user-data "
            "text byte and colour symbolic, all four flag combinations",
-    outside="sequences not in the list (no inductive one-step harness was built), text longer than one byte, tags(n) for n != 2, "
+    outside="sequences not in the list are covered only through the one-step harness (c10_q_attach_step_any_context: one attachment "
+            "from an arbitrary context over a state with 2 layers / 2 slices / 2 tags / 1 cel) plus the per-chunk context updates seen in the "
+            "listed sequences; text longer than one byte, tags(n) for n != 2, "
             "user data in frames other than the first",
 )
 
@@ -223,6 +225,7 @@ PROPS["C13"] = dict(
 PROPS["C14"] = dict(
     prefix="c14_",
     overlays=[("reader", "vk_c14.rs"), ("parse", "vk_c13.rs")],
+    per_harness={r"c14_q_io_error_.*": dict(mem_gb=14, timeout=1200)},
     bounds="delivery schedule one byte per call with symbolic contents (every primitive; take_bytes and a whole frame in the thorough "
            "tier); one hard I/O error (concrete kind) on the first read of a primitive; the io::Error -> IoError conversion and source() "
            "for two kinds",
